@@ -2,9 +2,17 @@
    Property theorems only.  [src_fatal_cfg] is what tools/s2c/fatal.py reads from /repo on every run:
    where Logger::processMessage flushes relative to process(lmsg), for which message types and thread
    condition; whether recursiveFlush flushes every Sink and enters nested Pipelines; whether
-   FileSink::flush is QFile::flush; whether RotatingFileSink::send asks size() before writing.
-   Removing the flush, moving it before process(lmsg), restricting it to another message type,
-   not descending, or a FileSink::flush that does nothing makes [C11_source_configuration_good] fail. *)
+   FileSink::flush is QFile::flush; whether RotatingFileSink::send asks size() before writing; whether
+   IODeviceSink::send flushes by itself.
+   Removing the flush, moving it before process(lmsg) or into the sink, restricting it to another
+   message type, not descending, or a FileSink::flush that does nothing makes
+   [C11_source_configuration_good] fail.
+
+   What the property demands, made precise for configurations with filters: the file of every file
+   sink holds every record that REACHED that sink (passed every filter in front of it, in its own and
+   in the enclosing pipelines) before the fatal message, and the fatal record iff it reaches the sink.
+   A sink on a device that keeps nothing (ENOSPC) has no file to speak of, but must not keep the
+   others from being flushed. *)
 From Coq Require Import List NArith Bool.
 Import ListNotations.
 Require Import QtlVerif.FatalDefs QtlVerif.FatalProofs QtlVerif.SrcFatal.
@@ -19,83 +27,96 @@ Proof. vm_compute. reflexivity. Qed.
 Print Assumptions C11_flush_on_fatal_present.
 
 (* full strength: for EVERY handler tree of the synchronous logger (plain and rotating file sinks,
-   other handlers, pipelines nested to any depth), EVERY history of preceding messages (any number,
-   sizes, types), EVERY buffering policy (when QFile decides to flush by itself), every initial file
-   content: when qFatal(r) has been processed and the process is aborted, the file of every file
-   sink = what it held + every preceding record in order + the fatal record *)
-Theorem C11_fatal_reaches_disk : forall (pol : policy) (l : list tree) (msgs : list (mtype * rec)) (r : rec),
-  survivors (run_fatal src_fatal_cfg pol l msgs r)
-  = map (fun s => content s ++ map snd msgs ++ [r]) (lsinks l).
+   healthy or on a full device, filters, other handlers, pipelines nested to any depth), EVERY
+   history of preceding messages (any number, sizes, types), EVERY buffering policy (when QFile
+   decides to flush by itself), every initial file content: when qFatal(r) has been processed and
+   the process is aborted, the file of every healthy file sink = what it held + every record that
+   passed the filters in front of that sink, in order ([expected]: the fatal record is the last one
+   iff it passes them) *)
+Theorem C11_fatal_reaches_disk : forall (pol : policy) (t : tree) (msgs : list msg) (r : rec),
+  survivors (run_fatal src_fatal_cfg pol t msgs r) = expected t (msgs ++ [(Fatal, r)]).
 Proof. exact (fatal_reaches_disk src_fatal_cfg C11_source_configuration_good). Qed.
 Print Assumptions C11_fatal_reaches_disk.
 
-Theorem C11_fatal_reaches_disk_fresh_files : forall pol l msgs r,
-  Forall (fun s => content s = []) (lsinks l) ->
-  survivors (run_fatal src_fatal_cfg pol l msgs r) = map (fun _ => map snd msgs ++ [r]) (lsinks l).
-Proof. exact (fatal_reaches_disk_fresh src_fatal_cfg C11_source_configuration_good). Qed.
-Print Assumptions C11_fatal_reaches_disk_fresh_files.
+(* the property in its plain reading: no filter in front of any sink, every device healthy: every
+   file = previous content + ALL preceding records + the fatal one *)
+Theorem C11_fatal_reaches_disk_unfiltered : forall pol t msgs r,
+  Forall (fun sg => snd sg = [] /\ broken (fst sg) = false) (gsinks t) ->
+  survivors (run_fatal src_fatal_cfg pol t msgs r)
+  = map (fun sg => Some (content (fst sg) ++ map snd msgs ++ [r])) (gsinks t).
+Proof. exact (fatal_reaches_disk_unfiltered src_fatal_cfg C11_source_configuration_good). Qed.
+Print Assumptions C11_fatal_reaches_disk_unfiltered.
 
-(* independent of the configuration: no step ever drops a record from (file ++ write buffer), so
-   what a file lacks at abort is exactly what was still buffered *)
-Theorem C11_content_conserved : forall cfg pol l msgs r,
-  map content (lsinks (run_fatal cfg pol l msgs r))
-  = map (fun s => content s ++ map snd msgs ++ [r]) (lsinks l).
+(* independent of the configuration: no step ever drops a record from (file ++ write buffer) and no
+   record goes to a sink whose filters rejected it, so what a file lacks at abort is exactly what
+   was still buffered *)
+Theorem C11_content_conserved : forall cfg pol t msgs r,
+  view (run_fatal cfg pol t msgs r) = map (upd_all (msgs ++ [(Fatal, r)])) (view t).
 Proof. exact content_conserved. Qed.
 Print Assumptions C11_content_conserved.
 
 (* the boolean oracle the check evaluates on the record ids found in the real files *)
-Theorem C11_oracle_holds : forall pol l msgs r,
-  Forall (fun s => content s = []) (lsinks l) ->
-  prop_c11_b (map rid (map snd msgs ++ [r])) (ids_of (survivors (run_fatal src_fatal_cfg pol l msgs r))) = true.
+Theorem C11_oracle_holds : forall pol t msgs r,
+  prop_c11_b t msgs r (ids_of (survivors (run_fatal src_fatal_cfg pol t msgs r))) = true.
 Proof. exact (oracle_holds src_fatal_cfg C11_source_configuration_good). Qed.
 Print Assumptions C11_oracle_holds.
 
 (* the repaired defect (DESIGN section 5, F2): the same code without the flush loses records under Qt's
-   own buffering policy — the plain file stays empty, the size-limited rotating file lacks the fatal
-   record *)
-Theorem C11_no_flush_refuted : exists l msgs r,
-  Forall (fun s => content s = []) (lsinks l) /\
-  survivors (run_fatal (with_pos src_fatal_cfg FNone) qfile_policy l msgs r)
-  <> map (fun _ => map snd msgs ++ [r]) (lsinks l).
+   own buffering policy *)
+Theorem C11_no_flush_refuted : exists t msgs r,
+  survivors (run_fatal (with_pos src_fatal_cfg FNone) qfile_policy t msgs r) <> expected t (msgs ++ [(Fatal, r)]).
 Proof.
-  exists [TSink (fresh 0 false)], [info 0 11; info 1 11; info 2 11], (mk 3 14).
-  split; [repeat constructor|vm_compute; discriminate].
+  exists (TPipe [TSink (fresh 0 false false)]), [info 0 11; info 1 11; info 2 11], (mk 3 14).
+  vm_compute. discriminate.
 Qed.
 Print Assumptions C11_no_flush_refuted.
 
 (* flushing BEFORE the fatal record is processed is not enough *)
-Theorem C11_flush_before_refuted : exists l msgs r,
-  Forall (fun s => content s = []) (lsinks l) /\
-  survivors (run_fatal (with_pos src_fatal_cfg FBefore) qfile_policy l msgs r)
-  <> map (fun _ => map snd msgs ++ [r]) (lsinks l).
+Theorem C11_flush_before_refuted : exists t msgs r,
+  survivors (run_fatal (with_pos src_fatal_cfg FBefore) qfile_policy t msgs r) <> expected t (msgs ++ [(Fatal, r)]).
 Proof.
-  exists [TSink (fresh 0 false)], [info 0 11], (mk 1 14).
-  split; [repeat constructor|vm_compute; discriminate].
+  exists (TPipe [TSink (fresh 0 false false)]), [info 0 11], (mk 1 14). vm_compute. discriminate.
 Qed.
 Print Assumptions C11_flush_before_refuted.
 
 (* a flush that does not enter nested pipelines misses the sinks inside them *)
-Theorem C11_no_descend_refuted : exists l msgs r,
-  Forall (fun s => content s = []) (lsinks l) /\
-  survivors (run_fatal (with_descends src_fatal_cfg false) qfile_policy l msgs r)
-  <> map (fun _ => map snd msgs ++ [r]) (lsinks l).
+Theorem C11_no_descend_refuted : exists t msgs r,
+  survivors (run_fatal (with_descends src_fatal_cfg false) qfile_policy t msgs r) <> expected t (msgs ++ [(Fatal, r)]).
 Proof.
-  exists [TOther; TPipe [TOther; TSink (fresh 0 false)]], [info 0 11], (mk 1 14).
-  split; [repeat constructor|vm_compute; discriminate].
+  exists (TPipe [TOther; TPipe [TOther; TSink (fresh 0 false false)]]), [info 0 11], (mk 1 14).
+  vm_compute. discriminate.
 Qed.
 Print Assumptions C11_no_descend_refuted.
 
-(* non-vacuity: a formatter, a plain sink, a nested pipeline holding a size-limited rotating sink and
-   a second-level pipeline with another plain sink; records below and above QFile's 16 KiB chunk *)
+(* a flush performed by the sink when the fatal record arrives (instead of by the logger) misses the
+   sinks the fatal record does not reach: a debug-only trace file next to the main file *)
+Theorem C11_flush_in_sink_refuted : exists t msgs r,
+  survivors (run_fatal (flush_in_sink src_fatal_cfg) qfile_policy t msgs r) <> expected t (msgs ++ [(Fatal, r)]).
+Proof.
+  exists (TPipe [TOther; TPipe [TFilter (is_type Debug); TSink (fresh 0 false false)]; TSink (fresh 1 false false)]),
+         [(Debug, mk 0 11); info 1 11], (mk 2 14).
+  vm_compute. discriminate.
+Qed.
+Print Assumptions C11_flush_in_sink_refuted.
+
+(* non-vacuity: a formatter, a debug-only trace file in a nested pipeline, a sink on a full device in
+   front of a healthy plain sink, a nested pipeline holding a size-limited rotating sink behind a
+   filter that rejects the fatal message, and a second-level pipeline with another plain sink;
+   records below, at and above QFile's 16 KiB chunk *)
 Example C11_nonvacuous :
-  let l := [TOther; TSink (fresh 0 false); TPipe [TOther; TSink (fresh 1 true); TPipe [TSink (fresh 2 false)]]] in
-  let msgs := [info 0 11; (Warning, mk 1 20481); info 2 11; (Critical, mk 3 16384)] in
-  ids_of (survivors (run_fatal src_fatal_cfg qfile_policy l msgs (mk 4 14)))
-    = [[0; 1; 2; 3; 4]; [0; 1; 2; 3; 4]; [0; 1; 2; 3; 4]]
+  let t := TPipe [TOther; TPipe [TFilter (is_type Debug); TSink (fresh 0 false false)];
+                  TSink (fresh 1 false true); TSink (fresh 2 false false);
+                  TPipe [TFilter (fun m => negb (is_type Fatal m)); TSink (fresh 3 true false); TPipe [TSink (fresh 4 false false)]]] in
+  let msgs := [(Debug, mk 0 11); (Warning, mk 1 20481); info 2 11; (Debug, mk 3 16384)] in
+  ids_of (survivors (run_fatal src_fatal_cfg qfile_policy t msgs (mk 4 14)))
+    = [Some [0; 3]; None; Some [0; 1; 2; 3; 4]; Some [0; 1; 2; 3]; Some [0; 1; 2; 3]]
   /\ (* the same run killed right after the last ordinary message: what Qt's policy had flushed *)
-  ids_of (survivors (log_all src_fatal_cfg qfile_policy l msgs)) = [[0; 1; 2]; [0; 1; 2]; [0; 1; 2]]
-  /\ (* F2 as it was: no flush *)
+  ids_of (survivors (log_all src_fatal_cfg qfile_policy t msgs)) = [Some [0]; None; Some [0; 1; 2]; Some [0; 1; 2]; Some [0; 1; 2]]
+  /\ (* the flush moved into the sink: the trace file and the files behind the fatal-rejecting filter lose records *)
+  ids_of (survivors (run_fatal (flush_in_sink src_fatal_cfg) qfile_policy t msgs (mk 4 14)))
+    = [Some [0]; None; Some [0; 1; 2; 3; 4]; Some [0; 1; 2]; Some [0; 1; 2]]
+  /\ (* F2 as it was: no flush at all; the plain file stays empty, the rotating file lacks the fatal record *)
   ids_of (survivors (run_fatal (with_pos src_fatal_cfg FNone) qfile_policy
-                       [TSink (fresh 0 false); TSink (fresh 1 true)] [info 0 11; info 1 11; info 2 11] (mk 3 14)))
-    = [[]; [0; 1; 2]].
+                       (TPipe [TSink (fresh 0 false false); TSink (fresh 1 true false)]) [info 0 11; info 1 11; info 2 11] (mk 3 14)))
+    = [Some []; Some [0; 1; 2]].
 Proof. vm_compute. repeat split. Qed.
